@@ -285,17 +285,67 @@ pub fn run(ctx: &Ctx) -> i32 {
             Err(p) => ev.violate("enumerate-panic", format!("Default containers: {}", p), J::s("Default")),
         }
     }
+    // scenarios in which the HISTORY of a thread matters: long series of small builds on one fresh thread (node shapes recur at
+    // other addresses, every 7th builder abandoned), and builders that migrate between threads
+    {
+        let nser = ctx.tier.pick(12, 64);
+        let per = ctx.tier.pick(1500, 6000);
+        let results: Vec<Vec<(Kv, Result<Vec<u8>, String>)>> = std::thread::scope(|sc| {
+            let hs: Vec<_> = (0..nser).map(|i| sc.spawn(move || build::series_on_one_thread(ctx.seed * 1000 + i as u64, per))).collect();
+            hs.into_iter().map(|h| h.join().unwrap_or_default()).collect()
+        });
+        let mut bad = 0;
+        for (si, series) in results.iter().enumerate() {
+            for (bi, (kv, res)) in series.iter().enumerate() {
+                ev.eval(None);
+                ev.count("history:builds-in-long-series-on-one-thread");
+                let verdict = match res {
+                    Ok(bytes) => guard(|| check_enumeration(bytes, kv, false, bi)).unwrap_or_else(|p| Err(format!("enumeration panicked: {}", p))),
+                    Err(e) => Err(format!("build failed: {}", e)),
+                };
+                if let Err(e) = verdict {
+                    if bad < 3 {
+                        ev.violate("roundtrip-mismatch", format!("build #{} of a series of {} small builds on one thread: {}", bi, series.len(), e), J::obj(vec![("series", J::U(si as u64)), ("position_in_series", J::U(bi as u64)), ("entries", J::A(kv.iter().map(|(k, v)| J::A(vec![J::bytes(k), J::U(*v)])).collect()))]));
+                    }
+                    bad += 1;
+                }
+            }
+        }
+        let nmig = ctx.tier.pick(400, 4000);
+        let mut bad = 0;
+        for m in 0..nmig {
+            let (p, q) = (m % 7, 1 + (m / 7) % 9);
+            let builds = build::migration(ctx.seed * 7919 + m as u64, p, q);
+            for (bi, (kv, res)) in builds.iter().enumerate() {
+                ev.eval(None);
+                ev.count("history:builds-around-a-builder-migrating-between-threads");
+                let verdict = match res {
+                    Ok(bytes) => guard(|| check_enumeration(bytes, kv, false, bi)).unwrap_or_else(|p| Err(format!("enumeration panicked: {}", p))),
+                    Err(e) => Err(format!("build failed: {}", e)),
+                };
+                if let Err(e) = verdict {
+                    if bad < 3 {
+                        ev.violate("roundtrip-mismatch", format!("migration scenario (thread P: {} builds, then a half-filled builder moves to a fresh thread Q which finishes it and builds {} more): build #{}: {}", p, q, bi, e), J::obj(vec![("p", J::U(p as u64)), ("q", J::U(q as u64)), ("build", J::U(bi as u64)), ("entries", J::A(kv.iter().map(|(k, v)| J::A(vec![J::bytes(k), J::U(*v)])).collect()))]));
+                    }
+                    bad += 1;
+                }
+            }
+        }
+        ev.distinct_extra += (nser * per / 2 + nmig) as u64;
+    }
     if ctx.tier == crate::ctx::Tier::Thorough && std::env::var_os("VERIF_SKIP_4GIB").is_none() {
         huge_4gib(ctx, &mut ev);
     }
     ev.note("geometries", J::A(GEOMS.iter().map(|g| J::s(format!("{}x{}", g.0, g.1))).collect()));
-    let floors = build::structural_floors(ctx.tier == crate::ctx::Tier::Thorough);
+    let mut floors = build::structural_floors(ctx.tier == crate::ctx::Tier::Thorough);
+    floors.push(("history:builds-in-long-series-on-one-thread", 10_000));
+    floors.push(("history:builds-around-a-builder-migrating-between-threads", 2000));
     finish(
         ctx,
         ev,
         Spec {
             level: "exploration",
-            rule: "one evaluation = one (key/value sequence, builder front end / cache geometry) build whose bytes are reopened and streamed through the enumeration APIs and compared element-wise with the inserted ordered map; cases: ALL subsets of {a,b}^<=3 x 3 value styles x 6 cache geometries, fan-out palette {0,1,2,31,32,33,63,64,65,255,256} x depth x finality x output shapes, all 256 byte values, keys up to 70000 bytes, corpora, random maps, bulk maps sized for 1..3 (quick) / 1..4 (thorough) byte address deltas, a two-key FST whose root needs 4-byte deltas, a fan-out x output-width grid, dense product sets, (thorough) one FST larger than 4 GiB with a suffix re-used beyond the 4 GiB mark; non-trivial = at least one key; distinct = distinct (content, front end) fingerprints",
+            rule: "(history scenarios: series of 1500 small builds on one fresh thread with every 7th builder abandoned half-way, and builders that migrate half-filled from a thread with p finished builds to a fresh thread which then runs q builds of its own - every build of a scenario is judged) one evaluation = one (key/value sequence, builder front end / cache geometry) build whose bytes are reopened and streamed through the enumeration APIs and compared element-wise with the inserted ordered map; cases: ALL subsets of {a,b}^<=3 x 3 value styles x 6 cache geometries, fan-out palette {0,1,2,31,32,33,63,64,65,255,256} x depth x finality x output shapes, all 256 byte values, keys up to 70000 bytes, corpora, random maps, bulk maps sized for 1..3 (quick) / 1..4 (thorough) byte address deltas, a two-key FST whose root needs 4-byte deltas, a fan-out x output-width grid, dense product sets, (thorough) one FST larger than 4 GiB with a suffix re-used beyond the 4 GiB mark; non-trivial = at least one key; distinct = distinct (content, front end) fingerprints",
             assumptions: vec![
                 "oracle = BTreeMap-ordered input sequence; comparison is on keys, values, order and multiplicity".into(),
                 "structural coverage classes (cov:*) are computed by the harness' independent decoder, not by the reader under test".into(),
